@@ -175,6 +175,7 @@ type frame struct {
 	curOrd  int
 	curBlock *ssa.BasicBlock
 	curIdx   int
+	lastFuncSetResult *sym
 }
 
 type rangeRec struct {
@@ -328,6 +329,9 @@ func (vc *FnVC) fresh(prefix, sort string) string {
 	vc.n++
 	name := fmt.Sprintf("%s_%d", mangle(prefix), vc.n)
 	vc.emit(fmt.Sprintf("(declare-const %s %s)", name, sort))
+	if sort == "(Array Ref Bool)" && strings.HasPrefix(prefix, "h_A") {
+		vc.emit(fmt.Sprintf("(assert (not (select %s nil)))", name)) // nil is not an object
+	}
 	if sort == "Iface" {
 		// the nil interface value is canonical
 		vc.emit(fmt.Sprintf("(assert (=> (= (itag %s) 0) (= %s niliface)))", name, name))
@@ -437,12 +441,16 @@ func (vc *FnVC) hget(st *state, key string) string {
 	if !vc.declared[base] {
 		vc.declared[base] = true
 		vc.emit(fmt.Sprintf("(declare-const %s %s)", base, vc.heapSort(key)))
+		if key == "A" {
+			vc.emit(fmt.Sprintf("(assert (not (select %s nil)))", base)) // nil is not an object
+		}
 		a := ""
 		if key != "A" && strings.HasPrefix(vc.heapSort(key), "(Array Ref ") {
 			a = fmt.Sprintf("h_A_e%d", st.epoch)
 			if !vc.declared[a] {
 				vc.declared[a] = true
 				vc.emit(fmt.Sprintf("(declare-const %s (Array Ref Bool))", a))
+				vc.emit(fmt.Sprintf("(assert (not (select %s nil)))", a))
 			}
 		}
 		vc.heapWF(base, vc.heapSort(key), a)
@@ -720,6 +728,16 @@ func (vc *FnVC) constGlobal(g *ssa.Global) string {
 		t := derefType(g.Type())
 		vc.emit(fmt.Sprintf("(declare-const %s %s)", name, vc.w.so.sortOf(t)))
 		// sentinel errors initialised at package init are non-nil
+		if d := vc.w.defs["global:"+g.Pkg.Pkg.Path()+"."+g.Name()]; d != nil {
+			// assumed: the package initialiser gives this (never reassigned) variable a non-nil value
+			vc.w.assumedUsed["global "+g.Pkg.Pkg.Path()+"."+g.Name()+" is non-nil"] = true
+			switch vc.w.so.sortOf(t) {
+			case "Iface":
+				vc.emit(fmt.Sprintf("(assert (not (= (itag %s) 0)))", name))
+			case "Ref":
+				vc.emit(fmt.Sprintf("(assert (not (= %s nil)))", name))
+			}
+		}
 		if types.Identical(t, types.Universe.Lookup("error").Type()) && (strings.HasPrefix(strings.ToLower(g.Name()), "err") || g.Name() == "EOF") {
 			vc.emit(fmt.Sprintf("(assert (not (= (itag %s) 0)))", name))
 		}
@@ -1084,6 +1102,12 @@ func (w *World) verifyFunction(fn *ssa.Function, c *Contract) (vc *FnVC, err err
 		}
 		if !found {
 			o := vc.oblige("bind", fmt.Sprintf("loop%d", k), "true", "false", fn.Pos(), fmt.Sprintf("loop %d does not exist", k), c.Props)
+			o.Trivial = false
+		}
+	}
+	if len(c.FuncSet) > 0 {
+		if msg := vc.validateFuncSet(c); msg != "" {
+			o := vc.oblige("bind", "funcset_"+mangle(c.FuncSetGlobal), "true", "false", fn.Pos(), "funcset "+c.FuncSetGlobal+": "+msg, c.Props)
 			o.Trivial = false
 		}
 	}
@@ -1561,9 +1585,48 @@ func (f *frame) scanCallMods(li *loopInfo, call ssa.CallInstruction) {
 		if callee != nil && nativeModel(callee.String()) {
 			return
 		}
+		if callee != nil && callee.Parent() != nil && len(callee.Blocks) > 0 && vc.depth < 3 {
+			// a local closure without contract is inlined at the call: its effects are those of its body
+			vc.depth++
+			sub := vc.newFrame(callee)
+			tmp := &loopInfo{blocks: map[*ssa.BasicBlock]bool{}, modKeys: li.modKeys}
+			for _, b := range callee.Blocks {
+				tmp.blocks[b] = true
+			}
+			sub.scanLoopMods(tmp)
+			vc.depth--
+			if tmp.modAll {
+				li.modAll = true
+			}
+			return
+		}
+		if callee == nil && vc.c != nil && len(vc.c.FuncSet) > 0 {
+			// dynamic call through a declared function table: the union of the candidates' effects
+			all := true
+			for _, n := range vc.c.FuncSet {
+				fn := vc.w.funcs[absName(n, vc.c.Pkg)]
+				var cc *Contract
+				if fn != nil {
+					cc = vc.w.contractOf(fn.String())
+				}
+				if fn == nil || cc == nil {
+					all = false
+					break
+				}
+				f.scanContractMods(li, cc, com, fn)
+			}
+			if all {
+				return
+			}
+		}
 		li.modAll = true
 		return
 	}
+	f.scanContractMods(li, c, com, callee)
+}
+
+func (f *frame) scanContractMods(li *loopInfo, c *Contract, com *ssa.CallCommon, callee *ssa.Function) {
+	vc := f.vc
 	for _, r := range c.Records {
 		if k, _, ok := vc.ghostKey(r.Ghost); ok {
 			li.modKeys[k] = true
@@ -1994,10 +2057,14 @@ func (f *frame) symTerm(s *sym) string {
 			s.t = vc.define("addr", "Ref", "("+fn+" "+s.pl.root+")")
 			return s.t
 		}
-		// any other interior address escapes as a first-class value: an opaque non-nil pointer
+		// any other interior address escapes as a first-class value: an opaque non-nil pointer that is not the
+		// identity of any object (so frame conditions over objects do not speak about it)
 		key := "addr"
 		s.t = vc.fresh(key, "Ref")
 		vc.assume("true", not(eq(s.t, "nil")))
+		if vc.entrySt != nil {
+			vc.assume("true", not("(select "+vc.hget(vc.entrySt, "A")+" "+s.t+")"))
+		}
 	}
 	return s.t
 }
